@@ -586,6 +586,8 @@ class Interp:
             raise OutOfSubset("list operator %s" % type(op).__name__)
         if isinstance(a, Opaque) or isinstance(b, Opaque):
             return Opaque("binop")
+        if isinstance(a, SRef) or isinstance(b, SRef):
+            raise OutOfSubset("operator %s on an opaque reference" % type(op).__name__)
         try:
             if isinstance(op, ast.Add):
                 return a + b
@@ -982,6 +984,22 @@ class Interp:
 
     def _run_function(self, f, key, args, kwargs):
         node = f.node
+        isgen = getattr(f, "_is_generator", None)
+        if isgen is None:
+            isgen = False
+            if not isinstance(node, ast.Lambda):
+                stack = list(node.body)
+                while stack:
+                    n = stack.pop()
+                    if isinstance(n, (ast.Yield, ast.YieldFrom)):
+                        isgen = True
+                        break
+                    if isinstance(n, (ast.FunctionDef, ast.Lambda, ast.ClassDef)):
+                        continue
+                    stack.extend(ast.iter_child_nodes(n))
+            f._is_generator = isgen
+        if isgen and key not in CTX.contracts:
+            raise OutOfSubset("generator function %s" % key)
         if key not in self.functions_seen and not isinstance(node, ast.Lambda):
             self.functions_seen[key] = f.module.source_hash(node)
         scope = Scope(f.module, f.scope, f.qualname, func=f)
